@@ -69,7 +69,7 @@ RULE = ("random scenes: 2-4 rectangles in own grid cells with 1-5 pins each (pro
         "80% of connectors carry 1-3 checkpoints with (arrival, departure) masks drawn from all 15 x 15 combinations (35% (All, restricted), 15% (restricted, All), "
         "35% both restricted), half of the ends are free points, crossingPenalty in {0,50,200,400} and fixedSharedPathPenalty in {0,110} (second search inside the "
         "transaction), histories drag free ends of checkpoint connectors (later search over persisting polyline edges); polyline-only scenes are sparse in half of the "
-        "cases (1-2 shapes, no sentinels). Third stream (generator class sharedpin, 200 / 700 cases): a hub shape with a class of 1-2 shared pins off the centre and off the corner lines "
+        "cases (1-2 shapes, no sentinels). Third stream (generator class sharedpin, 200 / 600 cases): a hub shape with a class of 1-2 shared pins off the centre and off the corner lines "
         "(in a third of the scenes mixed with an exclusive pin of the class), 2-4 orthogonal connectors attached to that class (destination end in 4 of 5), from pins of other shapes, "
         "junctions and free points in other grid cells, then the usual connectors and history. A case is non-trivial if at least one pin-attached end was checked after a move/resize.")
 TRUSTED_BASE = ["Lean 4.33 kernel", "axioms: propext, Classical.choice, Quot.sound", "Lean compiler for the driver",
